@@ -217,6 +217,8 @@ def upsert_routes(app, routes, routes_path, route, primary_key):
         return
 
     with open(routes_path, "a") as f:
+        # the existing file need not end in a newline (`to_code` does not emit one)
+        f.write("\n\n")
         f.write(
             "\n\n".join(
                 map(
